@@ -85,6 +85,20 @@ func genC01(r *Rand, tier string) Case {
 	if kind == "read" && !big && r.Intn(3) == 0 {
 		w.Readers = append(w.Readers, c01Reader{Kind: "read", Buf: 1 + r.Intn(17)})
 	}
+	// bound the work: every Read is a handful of decisions for the reader and for each writer waiting for
+	// room, so 45 KB read one byte at a time through a 7-byte pipe is more than the step budget, which is
+	// there to detect hangs (seen under VERIF_SEED=1: 405 k decisions of a legal run reported as a hang)
+	total := 0
+	for _, ch := range w.Writers {
+		for _, n := range ch {
+			total += n
+		}
+	}
+	for i := range w.Readers {
+		if min := total/6000 + 1; w.Readers[i].Buf < min {
+			w.Readers[i].Buf = min
+		}
+	}
 	w.Monitor = r.Intn(6)
 	w.Tee = r.Intn(6) == 0
 	if nw == 1 && r.Intn(2) == 0 {
